@@ -228,6 +228,14 @@ def execute(case, prefix: Sequence[int], line_level: bool) -> Dict[str, Any]:
             res["configured"] = {"dB": {cd.MT_CLIENT_SET_NAME, cd.MT_MODULE_READY}}
         for ds in sets:
             c.add_data_set(ds)
+        if config == "two":
+            # the configuration is edited before the recording (as ADD_DATA_SET with an existing name / REMOVE_DATA_SET do): dA is
+            # replaced by a data set of the same name, dB is removed and added again; the objects that count are the last ones
+            sets[0] = DataSet("col", "dA", "", "fileA", fcls, sub, [cd.ALL_MESSAGE_TYPES, cd.MT_CLIENT_SET_NAME], md)
+            c.add_data_set(sets[0])
+            c.rm_data_set("dB")
+            sets[1] = DataSet("col", "dB", "", "fileB", fcls, 0, [cd.MT_CLIENT_SET_NAME, 0, cd.MT_MODULE_READY] + [0] * 29, md)
+            c.add_data_set(sets[1])
         res["sets"] = sets
         c.start()
         i = 0
